@@ -37,8 +37,8 @@ CLAIMED = {
          X_NOTE + ' ' + S_NOTE, X('impl-block / delegation-target shapes by S'), 'X+S'),
  'C08': ('other', 'Module bodies as symbolic token lists run through entrait\'s own ModItem parser: the items that become trait methods are exactly the visible fns with a body, in source order, compared with a reference classification written from the property (S front end); trait visibility inside the module and re-export (S back end). X: module with every qualifier combination and foreign items, each method traced to its own fn.',
          S_NOTE, S('item classification over symbolic token lists; Kani routing'), 'S+X'),
- 'C09': ('other', 'For all trait definitions within the bounds (attrs, vis, unsafe, generics, supertraits, where, <=2 items: methods +- default body +- attrs, associated types) the resulting trait keeps name / vis / unsafety / generics / supertraits / where / attributes / items; only mock derivations added; async rewrite as documented; what is written before `trait` (attributes, visibility, unsafe) as symbolic token segments through Input::parse survives parsing and is on the emitted trait (S only).',
-         S_NOTE, S('trait-preservation obligations'), 'S'),
+ 'C09': ('other', 'For all trait definitions within the bounds (attrs, vis, unsafe, generics, supertraits, where, <=2 items: methods +- default body +- attrs, associated types) the resulting trait keeps name / vis / unsafety / generics / supertraits / where / attributes / items; only mock derivations added; async rewrite as documented (Output, Send rule); two generics of different kinds in every order; what is written before `trait` (attributes, visibility, unsafe) as symbolic token segments through Input::parse survives parsing and is on the emitted trait (S). X (compile only): programs that only type-check if a where clause on the trait / on sync and async generic methods, supertraits, generics behind a dyn, or `?Send` next to a mock option survived the macro.',
+         S_NOTE + ' rustc type-checks the compile-only corpus.', S('trait-preservation obligations; rustc-decided compile-only corpus'), 'S+X'),
  'C10': ('other', 'Full option lattice with symbolic option values x 4 macro entry points x fn/mod/trait: mock derivation present iff enabled (and named for fn/mod), wrapped in cfg_attr(test, ..) iff not exporting, explicit false wins (S). X: `Unimock: Trait` probes in non-test and cfg(test) builds with the unimock feature.',
          S_NOTE, S('option lattice with solver-valued options'), 'S+X'),
  'C11': ('other', 'Attribute-argument half only: unimock path / prefix / api name and shape / unmock_with entries per method in trait-method order (f, _, f(a,b,..)), omitted for entraited traits; no parameter of a TRAIT method is spelled like the fn the un-mock call must reach (S). X (compile only, no Kani): a corpus of mock_api functions / modules / traits incl. parameters spelled like their fn and patterns is type-checked by rustc in a cfg(test) build with the unimock feature, so that the code unimock generates from those arguments is checked against the original functions. NOT decided: the runtime half (mocked / un-mocked calls) - the unimock runtime cannot be compiled by Kani 0.68 (ICE).',
